@@ -1,6 +1,6 @@
 (* C10 — instantiating parameters equals evaluating them. *)
 Require Import Ommx.Num Ommx.Poly Ommx.Msg Ommx.Eval Ommx.Tree Ommx.Arith Ommx.PEval Ommx.Inst
-        Ommx.Transform Ommx.TransformProofs.
+        Ommx.InstProofs Ommx.PEvalProofs Ommx.Transform Ommx.TransformProofs Ommx.SubstInst Ommx.ParamInst.
 From Coq Require Import String.
 Close Scope string_scope. Open Scope list_scope. Open Scope Qc_scope.
 
@@ -43,3 +43,44 @@ Example C10_nonvacuous :
              denote (fn_or_zero (i_obj I)) (fun _ => qz 5) = qz 30) /\
   with_parameters tiny_eps P [] = None.
 Proof. split; [eexists; split; vm_compute; reflexivity|vm_compute; reflexivity]. Qed.
+
+
+(* ---------------------------------------------------------------------------------------------
+   INSTANCE LEVEL (ParamInst.v): EVALUATING the instantiated instance at x gives the parametric
+   objective and active constraints at (x, theta) -- for every valuation that agrees with x and with
+   theta -- every active record with its id / equality / metadata in order, removed constraints exactly
+   as stored (they are NOT instantiated), both flags "all hold", and the frame. *)
+Theorem C10_instance : forall tiny, tiny_exact tiny -> forall P theta I2 x sol,
+  with_parameters tiny P theta = Some I2 ->
+  inst_eval I2 x = Some sol ->
+  (forall rho, agrees rho x -> agrees rho theta ->
+     so_objective sol = denote (fn_or_zero (p_obj P)) rho) /\
+  (exists ea er, so_evaluated sol = ea ++ er /\
+     Forall2 (fun c e => reports_param c x theta e) (p_cs P) ea /\
+     Forall2 (fun r e => reports_removed r x e) (p_rs P) er /\
+     (so_feasible_relaxed sol = true <-> Forall holds ea) /\
+     (so_feasible sol = true <-> Forall holds (ea ++ er))) /\
+  i_dvs I2 = p_dvs P /\ i_sense I2 = p_sense P /\ i_rs I2 = p_rs P /\ i_hints I2 = p_hints P /\
+  i_deps I2 = p_deps P /\ i_desc I2 = p_desc P /\ i_params I2 = Some theta /\
+  so_dvs sol = p_dvs P.
+Proof. exact with_parameters_eval. Qed.
+Print Assumptions C10_instance.
+
+(* with parameter ids that are not state ids the canonical valuation of (theta ++ x) witnesses it *)
+Theorem C10_instance_union : forall tiny, tiny_exact tiny -> forall P theta I2 x sol,
+  sdisjoint theta x ->
+  with_parameters tiny P theta = Some I2 -> inst_eval I2 x = Some sol ->
+  so_objective sol = denote (fn_or_zero (p_obj P)) (total (theta ++ x)).
+Proof. intros tiny TE P theta I2 x sol D W E. exact (proj1 (proj2 (with_parameters_eval_union tiny TE P theta I2 x sol D W E))). Qed.
+Print Assumptions C10_instance_union.
+
+(* removed constraints are not instantiated: one that mentions an id without value in x (e.g. a
+   parameter) makes the evaluation fail *)
+Theorem C10_removed_not_instantiated : forall tiny, tiny_exact tiny -> forall P theta I2 x r c i,
+  with_parameters tiny P theta = Some I2 ->
+  In r (p_rs P) -> r_c r = Some c -> occurs (fn_or_zero (c_fn c)) i -> sget x i = None ->
+  inst_eval I2 x = None.
+Proof. exact with_parameters_removed_not_instantiated. Qed.
+Print Assumptions C10_removed_not_instantiated.
+Check with_parameters_eval_nonvacuous.
+Print Assumptions with_parameters_eval_nonvacuous.
